@@ -147,6 +147,8 @@ def main(argv=None):
     for k, e in sorted(m['failures'].items()):
         fid = core.explained_by(prop, e['sig'])
         if fid:
+            if os.environ.get('VERIF_SHOWSIGS'):
+                sys.stderr.write(f'  explained-by {fid}: {core.canon(e["sig"])} n={e["n"]}\n')
             kk = known.setdefault(fid, {'n': 0, 'sigs': 0, 'example': e['witnesses'][0] if e['witnesses'] else None})
             kk['n'] += e['n']
             kk['sigs'] += 1
